@@ -13,8 +13,10 @@ CONSTANTS AttrTypes,     \* [key letters |-> [attribute |-> data type name]]
           ConstTypes,    \* [constant name |-> data type name]
           NavTarget      \* not used for typing; kept for documentation of the class model
 
+\* instance-reference data types: the model declares one pair per class; `selected` is typed generically
 InstTy == "inst_ref<Object>"
-SetTy == "inst_ref_set<Object>"
+InstTyOf(c) == "inst_ref<" \o c \o ">"
+SetTyOf(c) == "inst_ref_set<" \o c \o ">"
 RelOps == CmpOps \cup {"and", "or"}
 
 \* a typing environment maps a variable to [ty |-> data type name, c |-> key letters ("" for scalars)]
@@ -30,7 +32,7 @@ TypeOf(e, env, home) ==
       [] e.t = "bool" -> TV("boolean", "")
       [] e.t = "paren" -> TypeOf(e.e, env, home)
       [] e.t = "var" -> IF e.n \in DOMAIN env THEN env[e.n] ELSE TV("", "")
-      [] e.t = "self" -> TV(InstTy, home)
+      [] e.t = "self" -> TV(InstTyOf(home), home)
       [] e.t = "selected" -> IF "selected" \in DOMAIN env THEN env["selected"] ELSE TV(InstTy, "")
       [] e.t = "param" -> TV(ParamTypes[e.n], "")
       [] e.t = "enum" -> IF e.n \in DOMAIN ConstTypes THEN TV(ConstTypes[e.n], "") ELSE TV(e.ns, "")
@@ -86,18 +88,18 @@ ES(s, env, home) ==
       [] s.t = "if" -> [es |-> own \o EE(s.c, env, home, TRUE) \o EB(s.b, env, home).es \o EElifs(s.elifs, env, home)
                                 \o (IF s.haselse THEN EB(s.els, env, home).es ELSE <<>>), env |-> env]
       [] s.t = "while" -> [es |-> own \o EE(s.c, env, home, TRUE) \o EB(s.b, env, home).es, env |-> env]
-      [] s.t = "for" -> LET env2 == Bind(env, s.v, TV(InstTy, env[s.s].c))
+      [] s.t = "for" -> LET env2 == Bind(env, s.v, TV(InstTyOf(env[s.s].c), env[s.s].c))
                         IN [es |-> own \o EB(s.b, env2, home).es, env |-> env2]
-      [] s.t = "create" -> [es |-> own, env |-> Bind(env, s.v, TV(InstTy, s.k))]
+      [] s.t = "create" -> [es |-> own, env |-> Bind(env, s.v, TV(InstTyOf(s.k), s.k))]
       [] s.t = "select_from" ->
             LET envw == Bind(env, "selected", TV(InstTy, s.k))
             IN [es |-> own \o (IF s.haswhere THEN EE(s.w, envw, home, TRUE) ELSE <<>>),
-                env |-> Bind(env, s.v, TV(IF s.card = "many" THEN SetTy ELSE InstTy, s.k))]
+                env |-> Bind(env, s.v, TV(IF s.card = "many" THEN SetTyOf(s.k) ELSE InstTyOf(s.k), s.k))]
       [] s.t = "select_related" ->
             LET k == ChainEnd(s.chain)
                 envw == Bind(env, "selected", TV(InstTy, k))
             IN [es |-> own \o EE(s.h, env, home, TRUE) \o (IF s.haswhere THEN EE(s.w, envw, home, TRUE) ELSE <<>>),
-                env |-> Bind(env, s.v, TV(IF s.card = "many" THEN SetTy ELSE InstTy, k))]
+                env |-> Bind(env, s.v, TV(IF s.card = "many" THEN SetTyOf(k) ELSE InstTyOf(k), k))]
       [] OTHER -> [es |-> own, env |-> env]
 
 Entries(body, home) == EB(body, <<>>, home).es
@@ -155,14 +157,14 @@ VS(s, a, env, ctx) ==
     IN
     CASE s.t = "assign" /\ s.lhs.t = "var" ->
             LET tv == TypeOf(s.e, env, home) IN [vs |-> decl(s.lhs.n, tv), env |-> IF s.lhs.n \in DOMAIN env THEN env ELSE Bind(env, s.lhs.n, tv)]
-      [] s.t = "create" -> [vs |-> decl(s.v, TV(InstTy, s.k)), env |-> Bind(env, s.v, TV(InstTy, s.k))]
+      [] s.t = "create" -> [vs |-> decl(s.v, TV(InstTyOf(s.k), s.k)), env |-> Bind(env, s.v, TV(InstTyOf(s.k), s.k))]
       [] s.t = "select_from" ->
-            LET tv == TV(IF s.card = "many" THEN SetTy ELSE InstTy, s.k) IN [vs |-> decl(s.v, tv), env |-> Bind(env, s.v, tv)]
+            LET tv == TV(IF s.card = "many" THEN SetTyOf(s.k) ELSE InstTyOf(s.k), s.k) IN [vs |-> decl(s.v, tv), env |-> Bind(env, s.v, tv)]
       [] s.t = "select_related" ->
-            LET tv == TV(IF s.card = "many" THEN SetTy ELSE InstTy, ChainEnd(s.chain)) IN [vs |-> decl(s.v, tv), env |-> Bind(env, s.v, tv)]
+            LET tv == TV(IF s.card = "many" THEN SetTyOf(ChainEnd(s.chain)) ELSE InstTyOf(ChainEnd(s.chain)), ChainEnd(s.chain)) IN [vs |-> decl(s.v, tv), env |-> Bind(env, s.v, tv)]
       [] s.t = "for" ->
             \* the loop variable is declared in the block that contains the loop
-            LET tv == TV(InstTy, env[s.s].c)
+            LET tv == TV(InstTyOf(env[s.s].c), env[s.s].c)
                 env2 == Bind(env, s.v, tv)
             IN [vs |-> decl(s.v, tv) \o VB(s.b, a + 6, env2, home).vs, env |-> env2]
       [] s.t = "while" -> [vs |-> VB(s.b, a + 1 + Len(UE(s.c)) + 1, env, home).vs, env |-> env]
